@@ -34,6 +34,8 @@ func universe(name string) *world.Universe {
 		u = world.Universe3Way(false)
 	case "U-kv":
 		u = world.UniverseKV()
+	case "U-kv-pool":
+		u = world.UniverseKVPool()
 	case "U-kv-deldel":
 		u = world.UniverseKVDelDel()
 	case "U-kv-orphan":
